@@ -174,7 +174,7 @@ theorem depth_flowRecsTree (m : FlowRecs) : depth (flowRecsTree m) ≤ 3 := by
 theorem depth_flowSampleTree (s : FlowSample) : depth (flowSampleTree s) ≤ 4 := by
   refine depth_obj _ 3 ?_; intro p hp
   simp only [List.mem_cons, List.not_mem_nil, or_false] at hp
-  rcases hp with rfl | rfl | rfl | rfl | rfl | rfl | rfl | rfl | rfl
+  rcases hp with rfl | rfl | rfl | rfl | rfl | rfl | rfl | rfl | rfl | rfl
   all_goals first | exact depth_flowRecsTree _ | exact Nat.zero_le _
 
 theorem depth_counterRecsTree (m : CounterRecs) : depth (counterRecsTree m) ≤ 2 := by
